@@ -87,6 +87,9 @@ def templates():
         ("t_include", [("include", "inc_c16.h", ("cuda", "cpu_serial")), ("block", "tid", "n", [("line", 0, None)])]),
         ("t_include_block", [("block", "tid", "n", [("line", 0, None)]), ("includeblock", "incb_c16.h", ("cuda", "cpu_openmp", "opencl"))]),
         ("t_three", [("block", "a", "n", [("line", 0, ("cuda",))]), ("block", "b", "n", [("line", 1, None)]), ("block", "c", "n", [("line", 2, ("opencl", "cpu_openmp"))])]),
+        # the bound of a block is an expression, not a bare identifier (M10-C16): CPU loop header and CUDA guard must carry it whole
+        ("t_expr_lim", [("block", "ii", "n/2", [("line", 0, None)]), ("block", "jj", "n-1", [("line", 1, None), ("line", 2, G)])]),
+        ("t_expr_lim2", [("line", 0, None), ("block", "kk", "(n+1)/3", [("line", 3, None)]), ("block", "tid", "n", [("line", 1, None)])]),
     ]
 
 
@@ -124,7 +127,7 @@ def ex(e, env):
         return -ex(e.expr, env)
     if isinstance(e, c_ast.BinaryOp):
         a, b = ex(e.left, env), ex(e.right, env)
-        ops = {"+": lambda: a + b, "-": lambda: a - b, "*": lambda: a * b, "<": lambda: a < b, "<=": lambda: a <= b, ">": lambda: a > b, ">=": lambda: a >= b, "==": lambda: a == b, "!=": lambda: a != b, "&&": lambda: z3.And(a, b), "||": lambda: z3.Or(a, b)}
+        ops = {"+": lambda: a + b, "-": lambda: a - b, "*": lambda: a * b, "<": lambda: a < b, "<=": lambda: a <= b, ">": lambda: a > b, ">=": lambda: a >= b, "==": lambda: a == b, "!=": lambda: a != b, "&&": lambda: z3.And(a, b), "||": lambda: z3.Or(a, b), "/": lambda: a / b, "%": lambda: a % b}
         if e.op in ops:
             return ops[e.op]()
     raise Untranslatable(type(e).__name__ + " " + getattr(e, "op", ""))
@@ -251,6 +254,27 @@ def expected(template, tgt):
                     ys.append(("qq", 6))
                 blocks.append(ys)
     return blocks, outside
+
+
+def block_lims(template, tgt):
+    """the annotated bound of every vectorised block, in the order `expected` lists the blocks"""
+    lims = []
+    for it in template[1]:
+        if it[0] == "block":
+            lims.append(it[2])
+        elif it[0] == "includeblock" and tgt in it[2]:
+            lims.append("n")
+    return lims
+
+
+def lim_term(text, env):
+    """the annotated bound as a z3 term over the kernel's own variables (non-negative operands: C division = floor division)"""
+    fd = c_parser.CParser().parse("int lim__(int n){ return (" + text + "); }").ext[0]
+    return ex(fd.body.block_items[0].expr, env)
+
+
+def lim_value(text, n):
+    return int(eval(text.replace("/", "//"), {"n": n}))
 
 
 # --------------------------------------------------------------------------
@@ -384,9 +408,15 @@ def harness(job):
         inrange = z3.And(0 <= v, v < n.e)
         e.prove(z3.BoolVal(lsz is None), "opencl: local size left to the runtime", det)
         for tgt, (blocks, outside) in per.items():
+            lims = block_lims(template, tgt)
             for bi, b in enumerate(blocks):
                 info["blocks"] += 1
                 env = b["env"]
+                lim_text = lims[bi] if bi < len(lims) else "n"
+                n_threads_lim = lim_text == "n"
+                env.setdefault("n", z3.Int("n"))
+                LIM = lim_term(lim_text, env)
+                inrange = z3.And(0 <= v, v < LIM)  # the indices the annotation names: 0 .. bound-1
                 lim_bind = []
                 for nm, var in env.items():
                     if nm == "n":
@@ -399,10 +429,12 @@ def harness(job):
                     e.prove(z3.BoolVal(b["step_ok"]), f"{tag}: the loop advances the index by one per iteration", det)
                     # executed set of `for (v=I; cond(v); v++)` = {v >= I : cond holds on I..v}; for a bound that is
                     # monotone (v < lim / v <= lim) that is I <= v /\ cond(v)
-                    e.prove(z3.Implies(bind, z3.And(b["init"] <= v, cond_v) == inrange), f"{tag}: the body runs for exactly the indices 0..n-1", det)
+                    e.prove(z3.Implies(bind, z3.And(b["init"] <= v, cond_v) == inrange), f"{tag}: the body runs for exactly the indices 0..n-1" + ("" if n_threads_lim else f" (bound {lim_text})"), det)
                     w = z3.Int("v!w")
                     e.prove(z3.Implies(z3.And(bind, z3.substitute(b["cond"], (vv, w)), b["init"] <= v, v <= w), cond_v), f"{tag}: the loop condition is monotone (no index is skipped)", det)
                 elif b["kind"] == "opencl":
+                    if not n_threads_lim:
+                        inrange = z3.And(0 <= v, v < n.e)  # no guard in the OpenCL form: once per work-item of the launch
                     gid = env.get("gid", z3.Int("gid"))
                     g2 = z3.Int("gid!2")
                     vx = b["vexpr"]
@@ -415,7 +447,9 @@ def harness(job):
                     vvar = env.get(b["var"], z3.Int(b["var"]))
                     guard = z3.substitute(b["guard"], (vvar, vx))
                     valid = z3.And(bind, bd == block, 0 <= bx, bx < grid, 0 <= tx, tx < block)
-                    e.prove(z3.Implies(z3.And(valid, guard), z3.And(0 <= vx, vx < n.e)), f"{tag}: a thread that passes the guard runs an index in 0..n-1", det)
+                    e.prove(z3.Implies(z3.And(valid, guard), z3.And(0 <= vx, vx < LIM)), f"{tag}: a thread that passes the guard runs an index in 0..n-1" + ("" if n_threads_lim else f" (bound {lim_text})"), det)
+                    if not n_threads_lim:
+                        inrange = z3.And(inrange, v < n.e)  # threads exist for 0..n_threads-1 only
                     wb, wt = v / block, v % block
                     sub = [(bx, wb), (tx, wt), (bd, block)]
                     e.prove(
@@ -513,10 +547,14 @@ def replay(ti, n, bs):
         grid, block = rec["cuda"]
         lib.drive(ctypes.c_int(n), y, z, ctypes.c_int(grid), ctypes.c_int(block), ctypes.c_int(rec["ocl"]))
         eb, eo = expected(template, tgt)
-        active = set(J for blk in eb for (_, J) in blk)
+        lims = block_lims(template, tgt)
+        upto = {}
+        for blk, lt in zip(eb, lims):
+            for _, J in blk:
+                upto[J] = n if tgt == "opencl" else min(n, lim_value(lt, n))
         for idx in range(n + 2 * bs + 4):
             for J in range(NM):
-                want = 1.0 if (idx < n and J in active) else 0.0
+                want = 1.0 if (J in upto and idx < upto[J]) else 0.0
                 if y[idx * NM + J] != want:
                     print(f"VIOLATED [{tgt}]: marker {J} of index {idx} executed {y[idx*NM+J]} times, expected {want} (n={n}, block={bs}, grid={grid}, G={rec['ocl']})")
                     bad = 1
